@@ -30,21 +30,45 @@ PROP = Prop(
                   "Go harness generators and the ground-truth description they emit; Lean compiler/runtime for the driver"],
     assumptions=["the model uses unbounded integers: inputs with an offset of magnitude >= 2^62 (where Go's int64 arithmetic could wrap) are run "
                  "for 'no panic' only (verdict '-'), not compared",
-                 "records_eq_reference and next_never_passes_unreturned are evaluated on every generated log (Spec on the implementation's output) but are not proved in Lean"],
+                 "records_eq_reference_partial / next_never_passes_unreturned_partial are about the structured walk (Model.C06.process on decoded "
+                 "frames): that the byte-level framing walk of an encoded log yields frames standing in the relation Rep to that log is not "
+                 "proved (no encoder model); it is what the differential run and the Spec evaluation on ground truth test",
+                 "their hypotheses: the frames encode a log with increasing offsets (WfLog: base offset >= 0, records inside [first,last], "
+                 "strictly increasing inside a batch and across batches; v2 unused attribute bits zero; only the last batch cut short inside; "
+                 "compressed wrappers carry only codec bits 0-1 and the timestamp-type bit, the inner messages of a LogAppendTime v1 wrapper are v1) and the aborted list is consistent with the log (AbortedConsistent: at an ABORT "
+                 "marker at most one listed transaction of its producer is open, no listed transaction ended by a marker entirely below the fetch offset)"],
     partial="Proved for all inputs: order-independence of the aborted list, no panic on arbitrary bytes, truncated tail ignored, next offset monotone. "
-            "Equality with the reference decoder and 'next never passes an unreturned record' are checked by evaluation of the Spec against ground truth, not proved.",
+            "Proved for every well-formed list of frames (v0/v1 messages, compressed v0/v1 wrappers with rebasing, v2 batches, last one possibly cut short, "
+            "then a stopping frame), every fetch offset, isolation level and every aborted list consistent with the log: returned records = "
+            "Spec.C06.refRecords (records_eq_reference_partial), every reference record of the log is returned or at/after the next offset "
+            "(next_never_passes_unreturned_partial, incl. KAFKA-5443 and batches cut short), next offset within the whole batches (next_within_response), "
+            "hence the driver's predicate Spec.C06.holds on the model's result (spec_holds_partial); for all inputs the next offset is past every returned record (returned_below_next). "
+            "Not proved: the same for aborted lists the property does not speak about (duplicates, transactions ended below the fetch offset: the full "
+            "statements are false there, kept in comments), the byte-level encoding relation (frames of an encoded log stand in Rep to it). "
+            "Found here and repaired in /repo 581b089 (model follows, theorems cover it): v1 compressed wrapper stamped LogAppendTime (key v1-wrapper-logappendtime-timestamp, regression case in corpus/C06).",
 )
 MANIFEST = {
     "text": "Lean model of kgo.ProcessFetchPartition at two levels (byte-level framing walk with every slice expression an explicit panic outcome; "
             "structured walk over decoded batches/messages with the aborter, control records, KAFKA-5443 next-offset rule, wrapper offset rebasing). "
             "Theorems for all inputs: the result is invariant under permutation of the aborted-transaction list; arbitrary bytes never reach a panic "
             "outcome (any CRC function, any decompressor); a truncated trailing frame is a silent stop that changes neither records nor next offset; the "
-            "next offset never goes below the requested one. The model is tied to the code by differential runs (exact output equality), and an independent "
-            "reference decoder of the Kafka log format (Spec.C06) is evaluated on the implementation's output against the generator's ground truth for mixed "
-            "v0/v1/v2 logs, every codec, interleaved transactions, compaction gaps, empty batches, truncation at every byte and shuffled aborted lists.",
+            "next offset never goes below the requested one. Refinement theorems against the independent reference decoder Spec.C06 (induction over the walk "
+            "with an invariant tying the sorted, popped aborter to the Spec's order-free 'open aborted transaction' definition): for every list of frames "
+            "that encode a log with increasing offsets (v0/v1 messages, compressed v0/v1 wrappers with offset rebasing, v2 batches incl. compacted, empty, "
+            "control, transactional, the last possibly cut short inside, then a truncated or failing frame), every fetch offset, isolation level and every "
+            "aborted list consistent with that log, the returned records equal Spec.C06.refRecords in order and in every field, every record the reference "
+            "decoder yields from the log (also beyond the response) is returned or lies at/after the next offset, and the next offset stays within the whole "
+            "batches - i.e. the executable predicate Spec.C06.holds is a theorem about the model's result; for all inputs the next offset is past every returned record. The model is tied to the code by differential runs (exact output equality), and the same reference decoder is evaluated on the "
+            "implementation's output against the generator's ground truth for mixed v0/v1/v2 logs, every codec, interleaved transactions, compaction gaps, "
+            "empty batches, truncation at every byte and shuffled aborted lists.",
     "note": "Trusted: Lean kernel; the hand-written model (validated differentially, not extracted); CRC-32 and codecs are parameters (modelled, not verified); "
-            "kbin reader/varints transcribed (C16/C17). Equality with the reference decoder and the no-skip law of the next offset are tested against ground truth "
-            "on every run, not proved. Offsets of magnitude >= 2^62 are only run for no-panic. Found and reported: readRawRecordsInto panicked on an overflowing "
-            "record-length varint (fixed in /repo 049c23c; stable key varint-overflow-record-length, witness in corpus/C06).",
-    "technique": "Lean 4 proof (induction over the walk, explicit panic outcomes) with differential correspondence and a reference-decoder oracle",
+            "kbin reader/varints transcribed (C16/C17); the relation Rep between decoded frames and log batches (Proof/C06Ref.lean, written from the log format) and "
+            "that the byte-level walk produces such frames for an encoded log (tested, not proved). The refinement theorems are named _partial because they assume an "
+            "aborted list consistent with the log (each transaction once, none ended below the fetch offset); outside that the full statements are false in model and "
+            "code and the property is silent. Offsets of magnitude >= 2^62 are only run for no-panic. Found and reported: readRawRecordsInto panicked on an overflowing "
+            "record-length varint (fixed in /repo 049c23c; key varint-overflow-record-length); a v1 compressed wrapper stamped LogAppendTime was returned with the inner "
+            "timestamps and CreateTime attributes instead of the wrapper's timestamp (fixed in /repo 581b089; key v1-wrapper-logappendtime-timestamp, regression case "
+            "with ground truth in corpus/C06; the well-formed generator now emits such wrappers). A v0 inner message inside a v1 wrapper (not allowed by the log format: "
+            "inner magic must equal the wrapper's) is accepted by the code and returned without timestamp; compared with the model only (malformed stream kind 6).",
+    "technique": "Lean 4 proof (induction over the walk, explicit panic outcomes, refinement to a reference decoder with an aborter invariant) with differential correspondence and a reference-decoder oracle",
 }
